@@ -1113,6 +1113,28 @@ def c10_check(case):
         sigma[a[0]] = b[0]
     if len(set(sigma.values())) != len(sigma):
         return f'renaming not injective: {sigma!r}'
+    # the bijection is the one chosen from the node concepts in depth-first order
+    want, used = {}, set()
+    for var, bs in old:         # all_nodes is depth-first pre-order
+        if var in want:
+            continue
+        concept = next((t_ for r_, t_ in bs if r_ == '/'), None)
+        pre = '_'
+        if isinstance(concept, str):
+            for ch in concept:
+                if ch.isalpha():
+                    pre = ch.lower()
+                    break
+        i = 0
+        while True:
+            nv = fmt.format(prefix=pre, i=i, j='' if i == 0 else i + 1)
+            i += 1
+            if nv not in used:
+                break
+        used.add(nv)
+        want[var] = nv
+    if sigma != want:
+        return f'names not chosen from the concepts in depth-first order: {sigma!r}, expected {want!r}'
     for a, b in zip(old, new):
         if len(a[1]) != len(b[1]):
             return 'shape changed'
@@ -1711,7 +1733,8 @@ def c19_gen(rng):
     for _ in range(n):
         s = rng.choice(gen.VARS)
         r = rng.choice(gen.ROLES_PLAIN[:-3] + ['instance', 'ARG0', ':r-of', ':^up', '^down', ':a^b'])
-        t = rng.choice(gen.VARS + ['7', '-1.5', 'imperative', '"a b"', '"x, y"', '"p(q)"', '"c ^ d"', '"\\"q\\""', '-'])
+        t = rng.choice(gen.VARS + ['7', '-1.5', 'imperative', '"a b"', '"x, y"', '"p(q)"', '"c ^ d"', '"\\"q\\""', '-',
+                                   '"C:\\\\"', '"C:\\\\"', '"e\\\\\\"f"', '"\\\\"'])
         ts.append([s, r, t])
     return {'triples': ts, 'indent': maybe(rng, 0.5), 'comma': rng.choice([', ', ',', ' , ', ' ,']),
             'caret': rng.choice([' ^', '^', ' ^ '])}
